@@ -31,6 +31,8 @@ const SERVER_PEM: &str = pki!("server.pem");
 const SERVER_KEY: &str = pki!("server.key");
 const CLIENT_OK_PEM: &str = pki!("client_ok.pem");
 const CLIENT_OK_KEY: &str = pki!("client_ok.key");
+const CLIENT_CHAIN_PEM: &str = pki!("client_chain.pem"); // leaf + intermediate (issued by ca_c)
+const CLIENT_CHAIN_KEY: &str = pki!("client_chain.key");
 const CLIENT_OTHER_PEM: &str = pki!("client_other.pem");
 const CLIENT_OTHER_KEY: &str = pki!("client_other.key");
 
@@ -203,6 +205,13 @@ fn run_matrix(sim: &Sim, idx: u64) {
     let origin_variant = sim.weighted(&[4, 1, 1]);
     let uri_host_wrong = origin_variant == 2;
     sim.ev(|| format!("config: origin_variant={origin_variant}"));
+    // a valid client identity is either a single certificate issued by the client CA or a chain
+    // (leaf + intermediate); `use_key_log()` (SSLKEYLOGFILE support: a no-op without that variable)
+    // on either side must not change any verdict
+    let chain_identity = sim.chance(1, 2);
+    let client_key_log = sim.chance(1, 4);
+    let server_key_log = sim.chance(1, 4);
+    sim.ev(|| format!("config: chain_identity={chain_identity} client_key_log={client_key_log} server_key_log={server_key_log}"));
     let chain_ok = c.roots == Roots::Right;
     let name_ok = match c.domain {
         Domain::ConfiguredMatching => true,
@@ -251,6 +260,9 @@ fn run_matrix(sim: &Sim, idx: u64) {
                 if sim.chance(1, 3) {
                     tls = tls.ignore_client_order(sim.chance(1, 2));
                 }
+                if server_key_log {
+                    tls = tls.use_key_log();
+                }
                 let svc = HealthServer::new(CountingHealth(seen.clone()));
                 let builder = match Server::builder().tls_config(tls) {
                     Ok(b) => b,
@@ -295,6 +307,10 @@ fn run_matrix(sim: &Sim, idx: u64) {
                 tls = tls.with_enabled_roots();
             }
             tls = tls.assume_http2(c.assume_http2);
+            if client_key_log {
+                tls = tls.use_key_log();
+                sim.probe("client-use-key-log");
+            }
             // the same trust configuration through the different builder methods, roots and domain
             // in either order (all drawn)
             let roots_variant = sim.draw(4);
@@ -327,6 +343,7 @@ fn run_matrix(sim: &Sim, idx: u64) {
             tls = if domain_first { apply_roots(tls) } else { apply_domain(tls) };
             match c.ident {
                 Ident::NoIdent => {}
+                Ident::Valid if chain_identity => tls = tls.identity(Identity::from_pem(CLIENT_CHAIN_PEM, CLIENT_CHAIN_KEY)),
                 Ident::Valid => tls = tls.identity(Identity::from_pem(CLIENT_OK_PEM, CLIENT_OK_KEY)),
                 Ident::OtherCa => tls = tls.identity(Identity::from_pem(CLIENT_OTHER_PEM, CLIENT_OTHER_KEY)),
             }
@@ -416,12 +433,13 @@ fn run_matrix(sim: &Sim, idx: u64) {
             }
             if c.alpn == Alpn::H2 && c.ident == Ident::Valid && c.auth != ClientAuth::NoAuth {
                 // handlers see the verified peer certificate
-                let want = certs(CLIENT_OK_PEM).into_iter().next().map(|d| d.as_ref().to_vec());
-                let got = seen.peer_certs.lock().unwrap().first().cloned().flatten().and_then(|v| v.into_iter().next());
-                if got != want {
-                    v(sim, "peer-certificate-not-exposed-to-handler", format!("{c:?}: handler saw {:?} bytes of certificate, client presented {:?}", got.map(|g| g.len()), want.map(|w| w.len())));
+                // ... all of them: the whole chain the client presented and the server verified
+                let want: Vec<Vec<u8>> = certs(if chain_identity { CLIENT_CHAIN_PEM } else { CLIENT_OK_PEM }).into_iter().map(|d| d.as_ref().to_vec()).collect();
+                let got: Option<Vec<Vec<u8>>> = seen.peer_certs.lock().unwrap().first().cloned().flatten();
+                if got.as_ref() != Some(&want) {
+                    v(sim, "peer-certificate-not-exposed-to-handler", format!("{c:?} chain_identity={chain_identity}: handler saw certificates of {:?} bytes, client presented {:?}", got.map(|g| g.iter().map(|x| x.len()).collect::<Vec<_>>()), want.iter().map(|w| w.len()).collect::<Vec<_>>()));
                 } else {
-                    sim.probe("peer-cert-seen-by-handler");
+                    sim.probe(if chain_identity { "peer-cert-chain-seen-by-handler" } else { "peer-cert-seen-by-handler" });
                 }
             }
         }
@@ -768,6 +786,8 @@ fn run_https_without_tls(sim: &Sim, _idx: u64) {
 }
 
 fn main() {
+    // `use_key_log()` would write key material to the file named here (single-threaded at this point)
+    std::env::remove_var("SSLKEYLOGFILE");
     simcore::main_with(vec![Property {
         id: "C15",
         title: "TLS channels and servers authenticate the peer and insist on HTTP/2",
